@@ -181,8 +181,8 @@ def check(ctx):
         p = subprocess.run(["timeout", "300", "coqc"] + flags + [os.path.join(gen_dir, f)], cwd=core.COQ, stdout=subprocess.PIPE, stderr=subprocess.STDOUT, text=True)
         if p.returncode != 0:
             break
-    ok = p.returncode == 0 and (p.stdout or "").count("Closed under the global context") == 2
-    ctx.notes["translator_traceback_link_theorems"] = "UJGen.TracebackLink.{generated_get_stack_frame_is_model, generated_render_is_model}: %s" % ("proved, closed" if ok else "NOT proved")
+    ok = p.returncode == 0 and (p.stdout or "").count("Closed under the global context") == 4
+    ctx.notes["translator_traceback_link_theorems"] = "UJGen.TracebackLink.{generated_get_stack_frame_is_model, generated_render_is_model, C19_depth_on_source, C19_render_outermost_first_on_source}: %s" % ("proved, closed" if ok else "NOT proved")
     if not ok:
         # the depth sweep of the C19 campaign (user stacks of every small depth, all entry points) exhibits the concrete call site
         ctx.broke("translator link theorems UJGen.TracebackLink no longer check: get_stack_frame / render_symbolic_traceback differ from Obs/Traceback.v",
